@@ -88,6 +88,7 @@ class State:
         self.loopmode = {}
         self.wlog = None
         self.rlog = None
+        self.rbw = None       # cells read before any write to them since the logs were reset
         self.decomp = {}
 
     def fork(self):
@@ -100,6 +101,7 @@ class State:
         s.loopmode = dict(self.loopmode)
         s.wlog = None if self.wlog is None else list(self.wlog)
         s.rlog = None if self.rlog is None else list(self.rlog)
+        s.rbw = None if self.rbw is None else set(self.rbw)
         s.decomp = dict(self.decomp)
         return s
 
@@ -340,6 +342,8 @@ class Interp:
         v = self._walk(st, v, tg.path, tg)
         if log and st.rlog is not None:
             st.rlog.append((tg.cell, tg.path))
+            if st.rbw is not None and tg.cell not in st.rbw and not any(c == tg.cell for c, _ in (st.wlog or ())):
+                st.rbw.add(tg.cell)
         if tix is not None:
             v = self.decode(st, v, cr, tix)
         return v
@@ -624,9 +628,18 @@ class Interp:
                     return venum(rv["adt"], rv["variant"], rv["variant_name"], ops)
                 if rv["adt"].endswith("ops::Range"):
                     return ("range", ops[0], ops[1])
-                return vstruct(rv["adt"], dict(zip(rv["fields"], ops)))
+                if self.is_bytes_ty(fr.crate, dest_ty) and len(ops) == 1:
+                    # hybrid_array::Array([..]) — the transparent wrapper around the inner array
+                    o = ops[0]
+                    if o[0] == "int":
+                        o = self.encode(st, o)
+                    if o[0] == "bytes":
+                        return o
+                # fields of tuple structs are addressed by position (see place_target)
+                return vstruct(rv["adt"], {(int(f) if isinstance(f, str) and f.isdigit() else f): o for f, o in zip(rv["fields"], ops)})
             if agg == "closure":
-                return ("closure", rv["fn"], ops)
+                # the generic parameters in scope where the closure is created are the ones its body sees
+                return ("closure", rv["fn"], ops, tuple(sorted(self.tyenv[-1].items())))
             if agg == "array":
                 if all(o[0] == "bytes" for o in ops):
                     b = ()
@@ -636,7 +649,18 @@ class Interp:
             raise Undecided("aggregate %s" % agg)
         if k == "repeat":
             v = self.eval_operand(st, fr, rv["op"])
-            raise Undecided("repeat rvalue")
+            # [x; N]: N copies of x
+            total = self.sizeof(fr.crate, dest_ty)
+            if v[0] == "int":
+                v = self.encode(st, v)
+            if v[0] == "bytes":
+                esz = T.blen(v[1])
+                n = self.prims.count_of(st, total, esz)
+                if not v[1] or all(p_[0] == "x" and all(a_[0] == "ib" and not a_[3][3] and a_[3][2] == 0 for a_, _o in p_[2]) for p_ in v[1]):
+                    return vbytes(T.bzero(total))
+                j = T.fresh("$r")
+                return vbytes(T.bnorm((("m", j, ZERO, n, esz, v[1]),), st.F))
+            raise Undecided("repeat rvalue of %s" % v[0])
         raise Undecided("rvalue %s" % k)
 
     def cast(self, st, fr, rv, v):
@@ -709,6 +733,11 @@ class Interp:
                             if st.F.prove_ge(d2 - 1):
                                 return vsize(k2 + 1)
                             return ("sizefork", ("eq", d2), vsize(k2), vsize(k2 + 1))
+                    off = self.prims.decompose_offset(st, x, y)
+                    if off is not None and off[0] is not None:
+                        # the quotient hinges on a borrow from a known remainder: split the path here
+                        i_ = 0 if op == "Div" else 1
+                        return ("sizefork", off[0], vsize(off[1][i_]), vsize(off[2][i_]))
                     k, d = self.prims.decompose(st, x, y)
                     return vsize(k) if op == "Div" else vsize(d)
             if op in ("Div", "Rem", "BitAnd", "BitOr", "BitXor", "Shl", "Shr", "ShlUnchecked", "ShrUnchecked"):
@@ -994,7 +1023,10 @@ class Interp:
                 s1.assume(("eq", d[1] - a))
                 if not s1.F.inconsistent():
                     res.append(("goto", s1, b))
-            res.append(("goto", rest, t["otherwise"]))
+                # the remaining arms are taken with the value different from this one
+                rest.assume(("ne", d[1] - a))
+            if not rest.F.inconsistent():
+                res.append(("goto", rest, t["otherwise"]))
             return res
         if d[0] == "symdisc":
             # symbolic Option/Result discriminant: fork on both
@@ -1027,6 +1059,10 @@ class Interp:
         if body is not None:
             cr, b = body
             return self.inline(st, cr, b, ci["args"], fr.depth + 1, targs=fn.get("resolved", fn).get("args") if fn.get("resolved", {}).get("path") == b["path"] else fn.get("args"), caller_cr=fr.crate)
+        body = self.find_body_by_self_type(fr.crate, fn) or self.find_body_by_receiver(st, fr.crate, fn, ci["args"])
+        if body is not None:
+            cr, b = body
+            return self.inline(st, cr, b, ci["args"], fr.depth + 1)
         raise Undecided("unknown callee %s%s" % (fn["path"], (" => " + fn["resolved"]["path"]) if "resolved" in fn else ""))
 
     def find_body(self, cr, fn):
@@ -1052,8 +1088,67 @@ class Interp:
                     return c2, b
         return None
 
-    def inline(self, st, cr, body, args, depth, targs=None, caller_cr=None):
-        env = {}
+    def find_body_by_self_type(self, cr, fn):
+        """`<T as Trait>::method` of a workspace trait with T a generic parameter that the current
+        generic environment binds to a workspace type: the impl for that type (static dispatch)."""
+        tr = fn.get("trait")
+        kr = fn.get("krate")
+        c2 = self.facts.crates.get(kr) if kr else cr
+        targs = [a["ty"] for a in fn.get("args", []) if "ty" in a]
+        if not tr or c2 is None or c2.name in ("cipher", "inout", "core") or not targs:
+            return None
+        tcr, tix = cr, targs[0]
+        for _ in range(4):
+            t = tcr.types[tix]
+            if t["k"] != "param":
+                break
+            b = self.tyenv[-1].get(t["name"])
+            if b is None:
+                return None
+            tcr, tix = self.facts.crates[b[0]], b[1]
+            if tcr.types[tix]["k"] == "param" and tcr.types[tix]["name"] == t["name"]:
+                return None
+        t = tcr.types[tix]
+        if t["k"] != "adt":
+            return None
+        cands = [im for im in c2.impls if im.get("trait") == tr and im.get("self_adt") == t["adt"]]
+        if len(cands) != 1:
+            return None
+        for b in c2.bodies_of_impl(cands[0]):
+            if b["name"] == fn["name"]:
+                return c2, b
+        return None
+
+    def find_body_by_receiver(self, st, cr, fn, args):
+        """a method of a workspace trait called on a generic receiver: the abstract VALUE of the
+        receiver (a struct of a workspace type) selects the impl, as monomorphisation would."""
+        tr = fn.get("trait")
+        kr = fn.get("krate")
+        c2 = self.facts.crates.get(kr) if kr else cr
+        if not tr or c2 is None or c2.name in ("cipher", "inout", "core") or not args:
+            return None
+        v = args[0]
+        hops = 0
+        while v[0] == "ref" and hops < 4:
+            v = self.load(st, v[1], log=False)
+            hops += 1
+        if v[0] != "struct":
+            return None
+        adt = v[1]
+        cands = [im for im in c2.impls if im.get("trait") == tr and im.get("self_adt") == adt and im.get("self_adt_local")]
+        if len(cands) != 1:
+            return None
+        for b in c2.bodies_of_impl(cands[0]):
+            if b["name"] == fn["name"]:
+                return c2, b
+        # provided method of the trait itself
+        for b in c2.bodies:
+            if b.get("in_trait") and b["name"] == fn["name"] and b["path"].startswith(tr + "::"):
+                return c2, b
+        return None
+
+    def inline(self, st, cr, body, args, depth, targs=None, caller_cr=None, env0=None):
+        env = dict(env0) if env0 else {}
         if targs is not None and caller_cr is not None:
             names = body.get("generics") or []
             if len(names) == len(targs):
